@@ -1,10 +1,9 @@
-(* C03, numeral part: the classification of LuaHelper's parser (Model/Number.v) against the numeral grammar
-   (Spec/LuaNumeral.v).  Main results (cited by Properties/C03.v):
-     number_classify_exact   on every clean text outside three deviation classes the code is exactly the spec
-     number_numeral_complete every numeral is classified correctly (no guard beyond `clean`)
-     number_ok_iff / number_float_iff / number_no_fault_token
-     number_short_junk_fault / number_hex_one_junk_int0 / number_hex_cut_int: what the code does on the classes
-     *_refuted               concrete witnesses *)
+(* C03, numeral part: the classification of LuaHelper's parser (Model/Number.v, code as of fix 8dd49c7) against
+   the numeral grammar (Spec/LuaNumeral.v).  Main results (cited by Properties/C03.v):
+     number_classify_exact   on every clean text the code is exactly the spec (node kind and integer value)
+     number_ok_iff / number_float_iff / number_int_iff / number_no_fault
+     number_ok_token         for lexer tokens: "not a number" is raised iff the text is no numeral
+     *_repaired              the witnesses of the three former deviation classes are now "not a number" *)
 From Coq Require Import List NArith ZArith Bool Lia ZifyN ZifyNat ZifyBool.
 From LH Require Import Base.Bytes Base.Res Model.Number Spec.LuaNumeral Proofs.NumberSpecProofs Proofs.NumberGo.
 Import ListNotations.
@@ -370,42 +369,37 @@ Definition is_jit_suffix (q : list N) : bool := beq_bytes q s_ull || beq_bytes q
 Lemma is_jit_suffix_iff q : is_jit_suffix q = true <-> JitSuffix q.
 Proof. unfold is_jit_suffix, JitSuffix. rewrite orb_true_iff, !beq_bytes_eq. unfold s_ull, s_ll. tauto. Qed.
 
-Lemma jit_test q : (if negb (beq_bytes q s_ull) && negb (beq_bytes q s_ll) then @Ok bool false else Ok true) = Ok (is_jit_suffix q).
-Proof. unfold is_jit_suffix. destruct (beq_bytes q s_ull), (beq_bytes q s_ll); reflexivity. Qed.
-
+(* one or more p-characters followed by exactly ll / ull *)
 Definition shape_ok (p : N -> bool) (s : list N) : bool :=
   let (a, q) := span p s in
-  match q with [] => true | _ => match a with [] => true | _ => is_jit_suffix q end end.
+  match q with [] => false | _ => match a with [] => false | _ => is_jit_suffix q end end.
 
 Definition simple_nf (t : list N) : bool := shape_ok is_digit t.
 Definition hexok_nf (t : list N) : bool :=
   match hex_rest t with None => false | Some rest => shape_ok is_hex_lc rest end.
 
-Lemma loc_test p s :
-  (let loc := match first_fail p s 0 with Some i => i | None => 0%Z end in
-   if negb (loc =? 0)%Z then
-     do suffix <- slice_from s loc;
-     if negb (beq_bytes suffix s_ull) && negb (beq_bytes suffix s_ll) then Ok false else Ok true
-   else Ok true) = Ok (shape_ok p s).
-Proof.
-  rewrite first_fail_span. unfold shape_ok. destruct (span p s) as [a q] eqn:E.
-  destruct (span_spec _ _ _ _ E) as (Hs & _ & _).
-  destruct q as [|x q']; [reflexivity|]. cbv zeta.
-  destruct a as [|y a']; [reflexivity|].
-  assert (Hl : ((0 + len (y :: a') =? 0)%Z) = false) by (rewrite len_cons; pose proof (len_nonneg a'); lia).
-  rewrite Hl. cbn [negb]. rewrite Z.add_0_l. rewrite Hs at 1. rewrite slice_from_app. cbn [rbind]. apply jit_test.
-Qed.
-
 Lemma luajit_simple_char c r : lc_clean (c :: r) -> is_luajit_simple_integer (c :: r) = Ok (simple_nf (c :: r)).
 Proof.
   intros Hcl. destruct (lc_clean_head _ _ Hcl) as (Hsg & _ & _).
-  unfold is_luajit_simple_integer. rewrite idx_0. cbn [rbind]. rewrite Hsg, andb_false_r. apply loc_test.
+  unfold is_luajit_simple_integer. rewrite idx_0. cbn [rbind]. rewrite Hsg, andb_false_r.
+  rewrite first_fail_span. unfold simple_nf, shape_ok. destruct (span is_digit (c :: r)) as [a q] eqn:E.
+  destruct (span_spec _ _ _ _ E) as (Hs & _ & _).
+  destruct q as [|x q']; [reflexivity|]. rewrite Z.add_0_l, Z.sub_0_r.
+  destruct a as [|y a']; [reflexivity|].
+  assert (Hl : (len (y :: a') =? 0)%Z = false) by (rewrite len_cons; pose proof (len_nonneg a'); lia).
+  rewrite Hl. rewrite Hs at 1. rewrite slice_from_app. reflexivity.
 Qed.
 
 Lemma luajit_hex_char t : lc_clean t -> is_luajit_hex_integer t = Ok (hexok_nf t).
 Proof.
   intros Hcl. unfold is_luajit_hex_integer, hexok_nf. rewrite (hex_head_char _ Hcl). cbn [rbind].
-  destruct (hex_rest t) as [rest|]; [|reflexivity]. apply loc_test.
+  destruct (hex_rest t) as [rest|]; [|reflexivity].
+  rewrite first_fail_span. unfold shape_ok. destruct (span is_hex_lc rest) as [a q] eqn:E.
+  destruct (span_spec _ _ _ _ E) as (Hs & _ & _).
+  destruct q as [|x q']; [reflexivity|]. rewrite Z.add_0_l.
+  destruct a as [|y a']; [reflexivity|].
+  assert (Hl : (len (y :: a') <=? 0)%Z = false) by (rewrite len_cons; pose proof (len_nonneg a'); lia).
+  rewrite Hl. rewrite Hs at 1. rewrite slice_from_app. reflexivity.
 Qed.
 
 (* ---------- parseLuajitNum: the body ---------- *)
@@ -471,42 +465,6 @@ Proof.
     replace (length i) with (length i + 0)%nat at 1 by lia. rewrite firstn_app_2. cbn [firstn]. apply app_nil_r.
 Qed.
 
-Lemma strip23_prefix t : strip23 t = firstn (length t - 3) t \/ strip23 t = firstn (length t - 2) t.
-Proof. unfold strip23. destruct (nth (length t - 3) t 0 =? 117); auto. Qed.
-
-Lemma in_firstn (x : N) k s : In x (firstn k s) -> In x s.
-Proof. intros H. rewrite <- (firstn_skipn k s). apply in_or_app. left. exact H. Qed.
-Lemma forallb_firstn (p : N -> bool) k s : forallb p s = true -> forallb p (firstn k s) = true.
-Proof. intros H. rewrite <- (firstn_skipn k s) in H. apply forallb_app_iff in H as [H _]. exact H. Qed.
-Lemma forallb_skipn (p : N -> bool) k s : forallb p s = true -> forallb p (skipn k s) = true.
-Proof. intros H. rewrite <- (firstn_skipn k s) in H. apply forallb_app_iff in H as [_ H]. exact H. Qed.
-
-Lemma contains_0x_short u : (length u < 2)%nat -> contains s_0x u = false.
-Proof.
-  intros H. destruct (contains s_0x u) eqn:E; [|reflexivity]. exfalso.
-  pose proof (contains_incl _ _ E) as Hi.
-  assert (Hnd : NoDup s_0x).
-  { unfold s_0x. constructor; [cbn; intros [H0|[]]; discriminate|]. constructor; [cbn; tauto|constructor]. }
-  pose proof (NoDup_incl_length Hnd Hi) as Hl. cbn in Hl. lia.
-Qed.
-
-Lemma contains_0x_head a b u : forallb is_hex_lc u = true -> contains s_0x (a :: b :: u) = true -> a = 48 /\ b = 120.
-Proof.
-  intros Hu H. cbn [contains] in H. rewrite !has_prefix_0x in H.
-  apply orb_true_iff in H as [H|H].
-  - apply andb_true_iff in H as [E1 E2]. apply N.eqb_eq in E1, E2. auto.
-  - exfalso. apply orb_true_iff in H as [H|H].
-    + destruct u as [|x u']; [discriminate|]. apply andb_true_iff in H as [_ E2]. apply N.eqb_eq in E2. subst x.
-      cbn in Hu. discriminate.
-    + destruct u as [|x u']; [cbn in H; discriminate|].
-      apply (hex_no_x _ Hu). apply (contains_incl _ _ H). cbn. auto.
-Qed.
-
-Lemma lastn_cons16 x (u : list N) : (16 <= length u)%nat -> lastn 16 (x :: u) = lastn 16 u.
-Proof.
-  intros H. unfold lastn. cbn [length]. replace (S (length u) - 16)%nat with (S (length u - 16)) by lia. reflexivity.
-Qed.
-
 (* ---------- the LuaJIT part of the spec ---------- *)
 Definition pl_nf (t : list N) : option Z :=
   match num_strip_jit t with
@@ -560,326 +518,85 @@ Proof.
 Qed.
 
 (* t is not of a LuaJIT shape when neither span shows digits followed by a suffix *)
-Lemma pl_nf_none t :
-  (let (a, q) := span is_digit t in a = [] \/ is_jit_suffix q = false) ->
-  match hex_rest t with
-  | None => True
-  | Some rest => let (hs, q) := span is_hex_lc rest in hs = [] \/ is_jit_suffix q = false
-  end ->
-  pl_nf t = None.
+Lemma pl_nf_none t : simple_nf t = false -> hexok_nf t = false -> pl_nf t = None.
 Proof.
-  intros H1 H2. destruct (pl_nf t) as [v|] eqn:E; [|reflexivity]. exfalso.
+  unfold simple_nf, hexok_nf, shape_ok. intros H1 H2. destruct (pl_nf t) as [v|] eqn:E; [|reflexivity]. exfalso.
   destruct (pl_nf_shape _ _ E) as [(i & suf & -> & Hne & Hall & Hsuf)|(hs & suf & -> & Hne & Hall & Hsuf)].
   - rewrite (span_app is_digit i suf Hall (stops_suffix _ _ Hsuf eq_refl eq_refl)) in H1.
-    apply is_jit_suffix_iff in Hsuf. destruct H1; congruence.
+    apply is_jit_suffix_iff in Hsuf. rewrite Hsuf in H1.
+    destruct suf; [discriminate|]. destruct i; [congruence|discriminate].
   - assert (Hr : hex_rest (48 :: 120 :: hs ++ suf) = Some (hs ++ suf)).
     { destruct hs as [|h hs']; [congruence|]. reflexivity. }
     rewrite Hr in H2. rewrite (span_app is_hex_lc hs suf Hall (stops_suffix _ _ Hsuf eq_refl eq_refl)) in H2.
-    apply is_jit_suffix_iff in Hsuf. destruct H2; congruence.
+    apply is_jit_suffix_iff in Hsuf. rewrite Hsuf in H2.
+    destruct suf; [discriminate|]. destruct hs; [congruence|discriminate].
 Qed.
-
-(* ---------- the deviation classes ---------- *)
-Lemma short_junk_len t : (3 <= length t)%nat -> dev_short_junk t = false.
-Proof. destruct t as [|a [|b [|c r]]]; cbn [length]; intros H; try lia. reflexivity. Qed.
-Lemma short_junk_digit c r : is_digit c = true -> dev_short_junk (c :: r) = false.
-Proof. intros H. destruct r as [|b [|c' r']]; cbn [dev_short_junk]; rewrite ?H; reflexivity. Qed.
-Lemma one_junk_inv t : dev_hex_one_junk t = true -> exists x, t = [48; 120; x] /\ is_hex_lc x = false.
-Proof.
-  destruct t as [|a [|b [|c [|d r]]]]; cbn [dev_hex_one_junk]; try discriminate.
-  intros H. apply andb_true_iff in H as [H Hx]. apply andb_true_iff in H as [Ha Hb].
-  apply N.eqb_eq in Ha, Hb. subst. exists c. split; [reflexivity|]. destruct (is_hex_lc c); [discriminate|reflexivity].
-Qed.
-Lemma one_junk_len t : length t <> 3%nat -> dev_hex_one_junk t = false.
-Proof.
-  intros H. destruct (dev_hex_one_junk t) eqn:E; [|reflexivity].
-  destruct (one_junk_inv _ E) as (x & -> & _). cbn in H. congruence.
-Qed.
-Lemma one_junk_nondigit c r : is_digit c = false -> dev_hex_one_junk (c :: r) = false.
-Proof.
-  intros H. destruct (dev_hex_one_junk (c :: r)) eqn:E; [|reflexivity].
-  destruct (one_junk_inv _ E) as (x & Heq & _). injection Heq as -> _. discriminate.
-Qed.
-Lemma loc0_no_hex c r : hex_rest (c :: r) = None -> num_loc0 (c :: r) = negb (is_digit c).
-Proof.
-  destruct r as [|b [|c' r']]; cbn [num_loc0 hex_rest]; try reflexivity.
-  destruct ((c =? 48) && (b =? 120)); [discriminate|reflexivity].
-Qed.
-Lemma loc0_nondigit c r : is_digit c = false -> num_loc0 (c :: r) = true.
-Proof.
-  intros H. destruct r as [|b [|c' r']]; cbn [num_loc0]; rewrite ?H; try reflexivity.
-  destruct ((c =? 48) && (b =? 120)) eqn:E; [|reflexivity].
-  apply andb_true_iff in E as [E _]. apply N.eqb_eq in E. subst. discriminate.
-Qed.
-
-Definition hex_cut_value (t : list N) : Z := int64_of (Z.of_N (num_value 16 (lastn 16 (strip23 t)))).
-
-Lemma strip23_k t : (4 <= length t)%nat -> nth 1 t 0 <> 117 -> exists k, (2 <= k)%nat /\ strip23 t = firstn k t.
-Proof.
-  intros H4 H1. unfold strip23. destruct (nth (length t - 3) t 0 =? 117) eqn:E.
-  - exists (length t - 3)%nat. split; [|reflexivity].
-    destruct (Nat.eq_dec (length t) 4) as [H|H]; [|lia].
-    rewrite H in E. cbn in E. apply N.eqb_eq in E. congruence.
-  - exists (length t - 2)%nat. split; [lia|reflexivity].
-Qed.
-
-(* the body of parseLuajitNum on a text whose suffix test was skipped (loc == 0) *)
-Lemma body_loc0 t :
-  forallb lc_char t = true -> match t with c :: _ => (c =? 45) = false | [] => True end ->
-  (3 <= length t)%nat -> num_loc0 t = true -> dev_hex_one_junk t = false ->
-  body_nf t = if dev_hex_cut t then Ok (Some (hex_cut_value t)) else Ok None.
-Proof.
-  intros Hlc Hm H3 Hloc Hone. unfold body_nf.
-  assert (El : (length t <? 3)%nat = false) by lia. rewrite El. cbv zeta.
-  unfold dev_hex_cut, hex_cut_value. rewrite Hloc. cbn [andb].
-  destruct t as [|t0 [|t1 [|t2 r3]]]; cbn [length] in H3; try lia.
-  set (t := t0 :: t1 :: t2 :: r3) in *.
-  assert (Hpre : exists k, strip23 t = firstn k t) by (destruct (strip23_prefix t) as [H|H]; eauto).
-  destruct Hpre as (k & Hk).
-  assert (Hulc : forallb lc_char (strip23 t) = true) by (rewrite Hk; apply forallb_firstn; exact Hlc).
-  remember (strip23 t) as u eqn:Hu.
-  destruct (contains s_0x u) eqn:Hc; cbn [negb andb].
-  - (* "0x" occurs in the cut text *)
-    destruct u as [|a0 [|b0 u']]; try (rewrite contains_0x_short in Hc by (cbn; lia); discriminate).
-    assert (Ha0 : a0 = t0).
-    { destruct k; [discriminate|]. unfold t in Hk. cbn [firstn] in Hk. congruence. }
-    subst a0. rewrite (hex_tail_unfold t0 b0 u' Hm). unfold cut16.
-    assert (Hu'lc : forallb lc_char u' = true).
-    { cbn in Hulc. apply andb_true_iff in Hulc as [_ H]. apply andb_true_iff in H as [_ H]. exact H. }
-    destruct (16 <? length u')%nat eqn:E16.
-    + assert (E18 : (18 <? length (t0 :: b0 :: u'))%nat = true) by (cbn [length]; lia). rewrite E18.
-      rewrite !lastn_cons16 by (cbn [length]; lia). cbn [andb].
-      destruct (forallb is_hex_lc (lastn 16 u')) eqn:Hh.
-      * assert (H16 : (16 < length u')%nat) by lia.
-        destruct (lastn_app16 u' H16) as (pre & _ & Hl).
-        assert (Hne : lastn 16 u' <> []) by (intros H0; rewrite H0 in Hl; discriminate).
-        rewrite (parse_uint_hex _ Hne Hh).
-        pose proof (num_value16_small _ Hh ltac:(lia)) as Hsm.
-        destruct (num_value 16 (lastn 16 u') <=? max_u64) eqn:E2; [reflexivity|lia].
-      * destruct (parse_uint 16 (lastn 16 u')) eqn:Ep; try reflexivity. exfalso.
-        assert (Hl : forallb lc_char (lastn 16 u') = true) by (apply forallb_skipn; exact Hu'lc).
-        destruct (parse_uint16_ok_hex _ _ Hl Ep) as [_ H]. congruence.
-    + assert (E18 : (18 <? length (t0 :: b0 :: u'))%nat = false) by (cbn [length]; lia). rewrite E18. cbn [andb].
-      destruct (parse_uint 16 u') eqn:Ep; try reflexivity. exfalso.
-      destruct (parse_uint16_ok_hex _ _ Hu'lc Ep) as [Hne Hh].
-      destruct (contains_0x_head _ _ _ Hh Hc) as [-> ->].
-      (* so t = 0 x t2 ... and u' starts with t2, which is no hex digit *)
-      destruct k as [|[|[|k']]]; unfold t in Hk; cbn [firstn] in Hk; try discriminate.
-      * injection Hk as _ Hnil. congruence.
-      * injection Hk as E1 E2. subst t1 u'. unfold t in Hloc. cbn in Hloc. cbn in Hh. apply andb_true_iff in Hh as [Hh _].
-        rewrite Hh in Hloc. discriminate.
-  - (* no "0x": decimal ParseUint *)
-    destruct (parse_uint 10 u) eqn:Ep; try reflexivity. exfalso.
-    destruct (parse_uint10_ok_dec _ _ Ep) as [Hne Hd].
-    destruct u as [|a0 u']; [congruence|].
-    assert (Ha0 : a0 = t0).
-    { destruct k; [discriminate|]. unfold t in Hk. cbn [firstn] in Hk. congruence. }
-    subst a0. assert (Hd0 : is_digit t0 = true) by (cbn in Hd; apply andb_true_iff in Hd as [H _]; exact H).
-    (* loc0 with a digit in front: t = 0 x t2 ... *)
-    destruct (hex_rest t) as [rest|] eqn:Hh.
-    + destruct (hex_rest_some _ _ Hh) as [Ht _]. unfold t in Ht. injection Ht as -> -> <-.
-      destruct r3 as [|t3 r4].
-      * unfold t in Hone. cbn in Hone. unfold t in Hloc. cbn in Hloc. rewrite Hloc in Hone. discriminate.
-      * assert (H4 : (4 <= length t)%nat) by (unfold t; cbn [length]; lia).
-        destruct (strip23_k t H4) as (k2 & Hk2 & Hs); [unfold t; cbn; discriminate|].
-        rewrite <- Hu in Hs. destruct k2 as [|[|k2']]; try lia. unfold t in Hs. cbn [firstn] in Hs.
-        rewrite Hs in Hd. cbn in Hd. discriminate.
-    + unfold t in Hloc, Hh. rewrite (loc0_no_hex _ _ Hh) in Hloc. rewrite Hd0 in Hloc. discriminate.
-Qed.
-
-Lemma all_digits_accepted t : t <> [] -> forallb is_digit t = true -> pi_nf t = None -> pf_nf t = true.
-Proof.
-  intros Hne Hall. unfold pi_nf.
-  assert (Hd : num_digits1 num_digit t = true).
-  { apply num_digits1_iff. split; [exact Hne|rewrite <- is_digit_fn; exact Hall]. }
-  rewrite Hd. destruct (num_value 10 t <=? max_int64); [discriminate|]. intros _.
-  unfold pf_nf, num_mant_exp. rewrite <- span_fn, <- is_digit_fn. rewrite (span_all _ _ Hall).
-  apply num_nonempty_true in Hne. rewrite Hne. reflexivity.
-Qed.
-
-Lemma pf_dot_digit d : is_digit d = true -> pf_nf [46; d] = true.
-Proof.
-  intros H. unfold pf_nf.
-  assert (Hm : Mantissa num_digit ([] ++ 46 :: [d]) true).
-  { constructor; [reflexivity|cbn; rewrite <- is_digit_fn, H; reflexivity|discriminate]. }
-  pose proof (mant_exp_complete num_digit 101 _ _ [] false Hm (Exp_absent 101) eq_refl eq_refl ltac:(discriminate)) as Hx.
-  rewrite app_nil_r in Hx. cbn [app] in Hx. rewrite Hx. reflexivity.
-Qed.
-
-Lemma short_junk_char c r : (length (c :: r) < 3)%nat -> is_digit c = false -> pf_nf (c :: r) = false ->
-  dev_short_junk (c :: r) = true.
-Proof.
-  intros Hl Hc Hpf. destruct r as [|d [|e r']]; cbn [length] in Hl; try lia; cbn [dev_short_junk]; rewrite Hc; cbn [negb andb].
-  - reflexivity.
-  - destruct ((c =? 46) && is_digit d) eqn:E; [|reflexivity]. exfalso.
-    apply andb_true_iff in E as [Ec Ed]. apply N.eqb_eq in Ec. subst c.
-    rewrite (pf_dot_digit d Ed) in Hpf. discriminate.
-Qed.
-
-Definition pl_result (t : list N) : Res (option Z) :=
-  match pl_nf t with
-  | Some v => Ok (Some v)
-  | None =>
-    if dev_short_junk t then Fault IndexRange
-    else if dev_hex_one_junk t then Ok (Some 0%Z)
-    else if dev_hex_cut t then Ok (Some (hex_cut_value t))
-    else Ok None
-  end.
 
 Lemma length_app_suffix (i suf : list N) : i <> [] -> JitSuffix suf -> (3 <= length (i ++ suf))%nat.
 Proof.
   intros Hne Hsuf. rewrite app_length. destruct i; [congruence|]. destruct Hsuf as [->| ->]; cbn [length]; lia.
 Qed.
 
-(* parseLuajitNum, when parseInteger and parseFloat have said no *)
-Theorem parse_luajit_char t : lc_clean t -> pi_nf t = None -> pf_nf t = false -> parse_luajit_on t = pl_result t.
+(* parseLuajitNum is exactly the LuaJIT part of the spec, on every clean lower-case text *)
+Theorem parse_luajit_char t : lc_clean t -> parse_luajit_on t = Ok (pl_nf t).
 Proof.
-  intros Hcl Hpi Hpf. rewrite (parse_luajit_on_char t Hcl). destruct t as [|c r]; [reflexivity|].
-  destruct (lc_clean_head _ _ Hcl) as (Hsg & Hc & Hr). destruct (not_sign_43 c Hsg) as [_ Hm].
-  assert (Hlc : forallb lc_char (c :: r) = true) by (destruct Hcl; assumption).
-  remember (c :: r) as t eqn:Et.
-  unfold acc_nf, simple_nf, shape_ok. destruct (span is_digit t) as [a q] eqn:E1.
-  destruct (span_spec _ _ _ _ E1) as (Ht & Ha & Hq).
-  destruct q as [|x q'].
-  { (* all digits: impossible *)
-    exfalso. rewrite app_nil_r in Ht. subst a.
-    assert (Hne : t <> []) by (rewrite Et; discriminate).
-    rewrite (all_digits_accepted t Hne Ha Hpi) in Hpf. discriminate. }
-  destruct a as [|y a'].
-  { (* the first character is not a digit: loc == 0 *)
-    cbn [orb]. cbn [app] in Ht. assert (Hcx : c = x) by congruence. subst x. cbn in Hq.
-    assert (Hpl : pl_nf t = None).
-    { apply pl_nf_none; [rewrite E1; left; reflexivity|].
-      destruct (hex_rest t) as [rest|] eqn:Hh; [|exact I]. exfalso.
-      destruct (hex_rest_some _ _ Hh) as [Ht' _]. rewrite Et in Ht'. injection Ht' as -> _. discriminate. }
-    unfold pl_result. rewrite Hpl. rewrite Et.
-    rewrite (one_junk_nondigit c r Hq).
-    destruct (length (c :: r) <? 3)%nat eqn:El.
-    - rewrite (short_junk_char c r) by (try lia; try assumption; rewrite <- Et; assumption).
-      unfold body_nf. rewrite El. reflexivity.
-    - rewrite short_junk_len by lia.
-      apply body_loc0; try assumption; try lia.
-      + rewrite <- Et. exact Hlc.
-      + apply loc0_nondigit. exact Hq.
-      + apply one_junk_nondigit. exact Hq. }
-  assert (Hyd : is_digit c = true).
-  { rewrite Et in Ht. cbn [app] in Ht. injection Ht as -> _. cbn in Ha. apply andb_true_iff in Ha as [H _]. exact H. }
-  destruct (is_jit_suffix (x :: q')) eqn:Hsuf.
+  intros Hcl. rewrite (parse_luajit_on_char t Hcl). destruct t as [|c r]; [reflexivity|].
+  remember (c :: r) as t eqn:Et. unfold acc_nf.
+  destruct (simple_nf t) eqn:Hsim.
   { (* digits followed by ll / ull *)
-    cbn [orb]. apply is_jit_suffix_iff in Hsuf.
-    assert (Hne : y :: a' <> []) by discriminate.
-    unfold pl_result. rewrite Ht. rewrite (pl_nf_dec _ _ Hne Ha Hsuf).
-    unfold body_nf. pose proof (length_app_suffix _ _ Hne Hsuf) as H3.
+    cbn [orb]. unfold simple_nf, shape_ok in Hsim. destruct (span is_digit t) as [a q] eqn:E1.
+    destruct (span_spec _ _ _ _ E1) as (Ht & Ha & Hq).
+    destruct q as [|x q']; [discriminate|]. destruct a as [|y a']; [discriminate|].
+    apply is_jit_suffix_iff in Hsim. assert (Hne : y :: a' <> []) by discriminate.
+    rewrite Ht. rewrite (pl_nf_dec _ _ Hne Ha Hsim).
+    unfold body_nf. pose proof (length_app_suffix _ _ Hne Hsim) as H3.
     assert (El : (length ((y :: a') ++ x :: q') <? 3)%nat = false) by lia. rewrite El. cbv zeta.
-    rewrite (strip23_jit is_digit _ _ Hne Ha eq_refl Hsuf).
+    rewrite (strip23_jit is_digit _ _ Hne Ha eq_refl Hsim).
     rewrite (not_contains_if_missing s_0x (y :: a') 120) by (first [exact (digits_no_x _ Ha)|cbn; auto]).
-    cbn [negb]. rewrite (parse_uint_dec _ Hne Ha).
-    (* for a literal that does not fit in 64 bits both sides say "not a number" *)
-    assert (Hnox : ~ In 120 ((y :: a') ++ x :: q')).
-    { intros Hin. apply in_app_or in Hin as [Hin|Hin]; [exact (digits_no_x _ Ha Hin)|].
-      destruct (jit_suffix_chars _ _ Hsuf Hin); discriminate. }
-    rewrite <- Ht in *. rewrite Et in *.
-    assert (Hhr : hex_rest (c :: r) = None).
-    { destruct (hex_rest (c :: r)) as [rest|] eqn:Hh; [|reflexivity]. exfalso. apply Hnox.
-      destruct (hex_rest_some _ _ Hh) as [-> _]. cbn. auto. }
-    rewrite (short_junk_len (c :: r) H3).
-    assert (Hone : dev_hex_one_junk (c :: r) = false).
-    { destruct (dev_hex_one_junk (c :: r)) eqn:E; [|reflexivity].
-      destruct (one_junk_inv _ E) as (z & Hz & _). rewrite Hz in Hhr. cbn in Hhr. discriminate. }
-    rewrite Hone. unfold dev_hex_cut. rewrite (loc0_no_hex c r Hhr), Hyd. cbn [negb andb].
-    unfold two64, max_u64.
+    cbn [negb]. rewrite (parse_uint_dec _ Hne Ha). unfold two64, max_u64.
     destruct (num_value 10 (y :: a') <=? 18446744073709551615) eqn:E2;
       destruct (num_value 10 (y :: a') <? 18446744073709551616) eqn:E3; try lia; reflexivity. }
-  cbn [orb]. unfold hexok_nf. destruct (hex_rest t) as [rest|] eqn:Hh.
-  2:{ (* no "0x" head: rejected *)
-    assert (Hpl : pl_nf t = None).
-    { apply pl_nf_none; [rewrite E1; right; exact Hsuf|rewrite Hh; exact I]. }
-    unfold pl_result. rewrite Hpl. rewrite Et in *.
-    rewrite (short_junk_digit c r Hyd).
-    assert (Hone : dev_hex_one_junk (c :: r) = false).
-    { destruct (dev_hex_one_junk (c :: r)) eqn:E; [|reflexivity].
-      destruct (one_junk_inv _ E) as (z & Hz & _). rewrite Hz in Hh. cbn in Hh. discriminate. }
-    rewrite Hone. unfold dev_hex_cut. rewrite (loc0_no_hex c r Hh), Hyd. reflexivity. }
+  cbn [orb]. destruct (hexok_nf t) eqn:Hhex.
+  2:{ rewrite (pl_nf_none t Hsim Hhex). reflexivity. }
+  (* "0x", hex digits, ll / ull *)
+  unfold hexok_nf in Hhex. destruct (hex_rest t) as [rest|] eqn:Hh; [|discriminate].
   destruct (hex_rest_some _ _ Hh) as [Ht' Hrne].
-  unfold shape_ok. destruct (span is_hex_lc rest) as [hs q2] eqn:E2.
+  unfold shape_ok in Hhex. destruct (span is_hex_lc rest) as [hs q2] eqn:E2.
   destruct (span_spec _ _ _ _ E2) as (Hrest & Hhs & Hq2).
-  assert (H3 : (3 <= length t)%nat).
-  { rewrite Ht'. destruct rest; [congruence|]. cbn [length]. lia. }
-  destruct q2 as [|x2 q2'].
-  { (* a hex integer: parseInteger would have taken it *)
-    exfalso. rewrite app_nil_r in Hrest. subst hs.
-    unfold pi_nf in Hpi. rewrite Ht' in Hpi.
-    rewrite (not_digits1_if_has num_digit (48 :: 120 :: rest) 120) in Hpi by (cbn; auto).
-    assert (Hx : num_is_hex_int (48 :: 120 :: rest) = true).
-    { apply num_is_hex_int_iff. exists rest. split; [reflexivity|]. split; [exact Hrne|rewrite <- is_hex_fn; exact Hhs]. }
-    rewrite Hx in Hpi. discriminate. }
-  destruct hs as [|h hs'].
-  { (* "0x" followed by a non-hex character: loc == 0 *)
-    cbn [app] in Hrest. cbn in Hq2.
-    assert (Hpl : pl_nf t = None).
-    { apply pl_nf_none; [rewrite E1; right; exact Hsuf|rewrite Hh, E2; left; reflexivity]. }
-    unfold pl_result. rewrite Hpl. rewrite (short_junk_len t H3).
-    assert (Hloc : num_loc0 t = true) by (rewrite Ht', Hrest; cbn; rewrite Hq2; reflexivity).
-    destruct q2' as [|x3 q3].
-    - (* exactly three characters *)
-      rewrite Ht', Hrest. cbn [dev_hex_one_junk]. rewrite Hq2. cbn [N.eqb Pos.eqb andb negb].
-      unfold body_nf, strip23. cbn [length Nat.ltb Nat.leb Nat.sub nth firstn].
-      change (48 =? 117) with false. cbn iota.
-      rewrite contains_0x_short by (cbn; lia). reflexivity.
-    - assert (Hone : dev_hex_one_junk t = false) by (apply one_junk_len; rewrite Ht', Hrest; cbn; lia).
-      rewrite Hone. apply body_loc0; try assumption. rewrite Et. exact Hm. }
-  destruct (is_jit_suffix (x2 :: q2')) eqn:Hsuf2.
-  { (* hex digits followed by ll / ull *)
-    apply is_jit_suffix_iff in Hsuf2. assert (Hne : h :: hs' <> []) by discriminate.
-    unfold pl_result. rewrite Ht', Hrest. rewrite (pl_nf_hex _ _ Hne Hhs Hsuf2).
-    unfold body_nf.
-    change (48 :: 120 :: (h :: hs') ++ x2 :: q2') with ((48 :: 120 :: h :: hs') ++ x2 :: q2').
-    assert (Hne2 : 48 :: 120 :: h :: hs' <> []) by discriminate.
-    pose proof (length_app_suffix _ _ Hne2 Hsuf2) as H3'.
-    assert (El : Nat.ltb (length ((48 :: 120 :: h :: hs') ++ x2 :: q2')) 3 = false) by lia. rewrite El. cbv zeta.
-    assert (Hall2 : forallb (fun z => is_hex_lc z || (z =? 120)) (48 :: 120 :: h :: hs') = true).
-    { apply forallb_forall. intros z [<-|[<-|Hz]]; [reflexivity|reflexivity|].
-      rewrite (forallb_In _ _ _ Hhs Hz). reflexivity. }
-    rewrite (strip23_jit _ _ _ Hne2 Hall2 eq_refl Hsuf2).
-    change (contains s_0x (48 :: 120 :: h :: hs')) with true. cbn [negb].
-    apply hex_tail_hex; assumption. }
-  (* hex digits followed by something else: rejected *)
-  assert (Hpl : pl_nf t = None).
-  { apply pl_nf_none; [rewrite E1; right; exact Hsuf|rewrite Hh, E2; right; exact Hsuf2]. }
-  unfold pl_result. rewrite Hpl. rewrite (short_junk_len t H3).
-  assert (Hone : dev_hex_one_junk t = false).
-  { apply one_junk_len. rewrite Ht', Hrest. cbn [length]. rewrite app_length. cbn [length]. lia. }
-  rewrite Hone. unfold dev_hex_cut.
-  assert (Hloc : num_loc0 t = false).
-  { rewrite Ht', Hrest. cbn [app num_loc0]. cbn [N.eqb Pos.eqb andb]. cbn in Hhs. apply andb_true_iff in Hhs as [Hh0 _].
-    rewrite Hh0. reflexivity. }
-  rewrite Hloc. reflexivity.
+  destruct q2 as [|x2 q2']; [discriminate|]. destruct hs as [|h hs']; [discriminate|].
+  apply is_jit_suffix_iff in Hhex. assert (Hne : h :: hs' <> []) by discriminate.
+  rewrite Ht', Hrest. rewrite (pl_nf_hex _ _ Hne Hhs Hhex).
+  unfold body_nf.
+  change (48 :: 120 :: (h :: hs') ++ x2 :: q2') with ((48 :: 120 :: h :: hs') ++ x2 :: q2').
+  assert (Hne2 : 48 :: 120 :: h :: hs' <> []) by discriminate.
+  pose proof (length_app_suffix _ _ Hne2 Hhex) as H3'.
+  assert (El : Nat.ltb (length ((48 :: 120 :: h :: hs') ++ x2 :: q2')) 3 = false) by lia. rewrite El. cbv zeta.
+  assert (Hall2 : forallb (fun z => is_hex_lc z || (z =? 120)) (48 :: 120 :: h :: hs') = true).
+  { apply forallb_forall. intros z [<-|[<-|Hz]]; [reflexivity|reflexivity|].
+    rewrite (forallb_In _ _ _ Hhs Hz). reflexivity. }
+  rewrite (strip23_jit _ _ _ Hne2 Hall2 eq_refl Hhex).
+  change (contains s_0x (48 :: 120 :: h :: hs')) with true. cbn [negb].
+  apply hex_tail_hex; assumption.
 Qed.
 
 (* ---------- parseNumberExp ---------- *)
 Definition class_of (o : option numeral_value) : num_class :=
   match o with Some (IntegerValue v) => NumInt v | Some FloatValue => NumFloat | None => NumBad end.
 
-Definition classify_nf (t : list N) : Res num_class :=
+Definition classify_nf (t : list N) : num_class :=
   match pi_nf t with
-  | Some v => Ok (NumInt v)
-  | None =>
-    if pf_nf t then Ok NumFloat else
-    match pl_result t with
-    | Ok (Some v) => Ok (NumInt v)
-    | Ok None => Ok NumBad
-    | Fault k => Fault k
-    | OutOfFuel => OutOfFuel
-    end
+  | Some v => NumInt v
+  | None => if pf_nf t then NumFloat else match pl_nf t with Some v => NumInt v | None => NumBad end
   end.
 
-Theorem classify_char s : num_clean s = true -> classify_number s = classify_nf (to_lower s).
+Theorem classify_char s : num_clean s = true -> classify_number s = Ok (classify_nf (to_lower s)).
 Proof.
   intros Hcl. destruct (clean_lower s Hcl) as [Htrim Hlc]. unfold classify_number.
   rewrite parse_integer_on_eq, parse_float_on_eq, parse_luajit_on_eq, Htrim.
   set (t := to_lower s) in *. rewrite (parse_integer_char t Hlc). cbn [rbind]. unfold classify_nf.
   destruct (pi_nf t) eqn:Hpi; [reflexivity|]. rewrite (parse_float_char t Hlc). cbn [rbind].
-  destruct (pf_nf t) eqn:Hpf; [reflexivity|]. rewrite (parse_luajit_char t Hlc Hpi Hpf).
-  destruct (pl_result t) as [[v|]|k|]; reflexivity.
+  destruct (pf_nf t) eqn:Hpf; [reflexivity|]. rewrite (parse_luajit_char t Hlc). cbn [rbind].
+  destruct (pl_nf t); reflexivity.
 Qed.
 
 Lemma hex_int_value_skipn i : num_is_hex_int i = true ->
@@ -898,8 +615,7 @@ Proof.
   - destruct (num_value 10 t <=? max_int64); [reflexivity|].
     apply num_digits1_iff in Hd as [Hne Hall].
     assert (Hpf : pf_nf t = true).
-    { unfold pf_nf, num_mant_exp. rewrite (num_span_app num_digit t [] Hall I) || rewrite <- (app_nil_r t) at 1.
-      all: try (rewrite (num_span_app num_digit t [] Hall I)).
+    { unfold pf_nf, num_mant_exp. rewrite <- (app_nil_r t) at 1. rewrite (num_span_app num_digit t [] Hall I).
       apply num_nonempty_true in Hne. rewrite Hne. reflexivity. }
     rewrite Hpf. reflexivity.
   - destruct (num_is_hex_int t) eqn:Hh; [rewrite (hex_int_value_skipn t Hh); reflexivity|].
@@ -912,162 +628,57 @@ Qed.
 
 Lemma to_lower_lc s : map num_lc s = to_lower s.
 Proof. unfold to_lower. rewrite lower_fn. reflexivity. Qed.
-Lemma spec_value_nf s :
-  spec_value s =
-  match pi_nf (to_lower s) with
-  | Some v => Some (IntegerValue v)
-  | None => if pf_nf (to_lower s) then Some FloatValue else option_map IntegerValue (pl_nf (to_lower s))
-  end.
-Proof. unfold spec_value. rewrite to_lower_lc. apply spec_value_lc_nf. Qed.
 
-(* the code deviates from the grammar exactly on the non-numerals of the three classes *)
-Definition num_deviates (s : list N) : bool :=
-  let t := to_lower s in
-  match spec_value s with
-  | Some _ => false
-  | None => dev_short_junk t || dev_hex_one_junk t || dev_hex_cut t
-  end.
-
-Theorem number_classify_exact s :
-  num_clean s = true -> num_deviates s = false -> classify_number s = Ok (class_of (spec_value s)).
+Lemma class_of_spec_nf s : class_of (spec_value s) = classify_nf (to_lower s).
 Proof.
-  intros Hcl Hdev. rewrite (classify_char s Hcl). unfold num_deviates in Hdev. rewrite spec_value_nf in *.
-  set (t := to_lower s) in *. unfold classify_nf.
-  destruct (pi_nf t); [reflexivity|]. destruct (pf_nf t); [reflexivity|].
-  unfold pl_result. destruct (pl_nf t); [reflexivity|]. cbn [option_map] in Hdev.
-  apply orb_false_iff in Hdev as [Hdev H3]. apply orb_false_iff in Hdev as [H1 H2]. rewrite H1, H2, H3. reflexivity.
+  unfold spec_value. rewrite to_lower_lc, spec_value_lc_nf. unfold classify_nf.
+  destruct (pi_nf (to_lower s)); [reflexivity|]. destruct (pf_nf (to_lower s)); [reflexivity|].
+  destruct (pl_nf (to_lower s)); reflexivity.
 Qed.
+
+(* On every clean text (no white space, no underscore, no leading sign) the parser's classification is the
+   grammar's: node kind, integer value, or "not a number"; in particular no Go panic. *)
+Theorem number_classify_exact s :
+  num_clean s = true -> classify_number s = Ok (class_of (spec_value s)).
+Proof. intros Hcl. rewrite (classify_char s Hcl), class_of_spec_nf. reflexivity. Qed.
+
+Corollary number_no_fault s : num_clean s = true -> exists c, classify_number s = Ok c.
+Proof. intros Hcl. rewrite (number_classify_exact s Hcl). eauto. Qed.
 
 Corollary number_numeral_complete s v :
   num_clean s = true -> Denotes s v -> classify_number s = Ok (class_of (Some v)).
-Proof.
-  intros Hcl Hv. apply spec_value_iff in Hv. rewrite <- Hv. apply number_classify_exact; [exact Hcl|].
-  unfold num_deviates. rewrite Hv. reflexivity.
-Qed.
+Proof. intros Hcl Hv. apply spec_value_iff in Hv. rewrite <- Hv. exact (number_classify_exact s Hcl). Qed.
 
-Theorem number_ok_iff s :
-  num_clean s = true -> num_deviates s = false -> (number_accepted s = true <-> Numeral s).
+Theorem number_ok_iff s : num_clean s = true -> (number_accepted s = true <-> Numeral s).
 Proof.
-  intros Hcl Hdev. unfold number_accepted. rewrite (number_classify_exact s Hcl Hdev).
+  intros Hcl. unfold number_accepted. rewrite (number_classify_exact s Hcl).
   rewrite <- spec_numeral_iff. destruct (spec_value s) as [[v|]|]; cbn [class_of]; split; congruence.
 Qed.
 
-Theorem number_int_iff s v :
-  num_clean s = true -> num_deviates s = false -> (classify_number s = Ok (NumInt v) <-> IntegerNumeral s v).
+Theorem number_bad_iff s : num_clean s = true -> (classify_number s = Ok NumBad <-> ~ Numeral s).
 Proof.
-  intros Hcl Hdev. rewrite (number_classify_exact s Hcl Hdev). unfold IntegerNumeral. rewrite <- spec_value_iff.
+  intros Hcl. rewrite (number_classify_exact s Hcl). rewrite <- spec_numeral_iff.
+  destruct (spec_value s) as [[v|]|]; cbn [class_of]; split; try congruence; intros H; exfalso; apply H; discriminate.
+Qed.
+
+Theorem number_int_iff s v :
+  num_clean s = true -> (classify_number s = Ok (NumInt v) <-> IntegerNumeral s v).
+Proof.
+  intros Hcl. rewrite (number_classify_exact s Hcl). unfold IntegerNumeral. rewrite <- spec_value_iff.
   destruct (spec_value s) as [[w|]|]; cbn [class_of]; split; congruence.
 Qed.
 
-(* float nodes: no guard beyond `clean` (the deviation classes never produce a float) *)
 Theorem number_float_iff s :
   num_clean s = true -> (classify_number s = Ok NumFloat <-> FloatNumeral s).
 Proof.
-  intros Hcl. rewrite (classify_char s Hcl). unfold FloatNumeral. rewrite <- spec_value_iff.
-  rewrite spec_value_nf. set (t := to_lower s). unfold classify_nf.
-  destruct (pi_nf t); [split; congruence|]. destruct (pf_nf t); [tauto|].
-  destruct (pl_nf t); cbn [option_map]; destruct (pl_result t) as [[w|]|k|]; split; congruence.
+  intros Hcl. rewrite (number_classify_exact s Hcl). unfold FloatNumeral. rewrite <- spec_value_iff.
+  destruct (spec_value s) as [[w|]|]; cbn [class_of]; split; congruence.
 Qed.
 
-(* ---------- behaviour on the deviation classes ---------- *)
-Lemma short_junk_nf t : dev_short_junk t = true -> pi_nf t = None /\ pf_nf t = false /\ pl_nf t = None.
-Proof.
-  intros H.
-  assert (Hsh : exists c r, t = c :: r /\ is_digit c = false /\ (length r <= 1)%nat /\
-                            (c = 46 -> forallb is_digit r = true -> r = [])).
-  { destruct t as [|c [|d [|e r]]]; cbn [dev_short_junk] in H; try discriminate.
-    - exists c, []. destruct (is_digit c); [discriminate|]. cbn. auto.
-    - exists c, [d]. destruct (is_digit c); [discriminate|]. cbn [negb andb] in H. repeat split; [cbn; lia|].
-      intros -> Hd. cbn in Hd. rewrite andb_true_r in Hd. rewrite Hd in H. discriminate. }
-  destruct Hsh as (c & r & -> & Hc & Hl & Hdot).
-  assert (Hhr : hex_rest (c :: r) = None) by (destruct r as [|d [|e r']]; [reflexivity|reflexivity|cbn in Hl; lia]).
-  assert (Hsp : num_span num_digit (c :: r) = ([], c :: r)) by (cbn; rewrite <- is_digit_fn, Hc; reflexivity).
-  split; [|split].
-  - unfold pi_nf. rewrite digits1_cons. cbn [forallb]. rewrite <- is_digit_fn, Hc. cbn [andb].
-    rewrite hex_rest_is_hex_int, Hhr. reflexivity.
-  - unfold pf_nf.
-    assert (H1 : num_mant_exp num_digit 101 (c :: r) = false).
-    { unfold num_mant_exp. rewrite Hsp. destruct (c =? 46) eqn:E; [|reflexivity].
-      apply N.eqb_eq in E. destruct (num_span num_digit r) as [b r2] eqn:E2. cbn [num_nonempty orb].
-      destruct b as [|b0 b']; [reflexivity|]. exfalso.
-      destruct (num_span_spec _ _ _ _ E2) as (Hr & Hb & _).
-      destruct r as [|d [|e r']]; [discriminate| |cbn in Hl; lia].
-      destruct r2; [|apply (f_equal (@length N)) in Hr; rewrite app_length in Hr; cbn in Hr; lia].
-      rewrite app_nil_r in Hr. rewrite <- Hr in Hb. rewrite <- is_digit_fn in Hb.
-      specialize (Hdot E Hb). discriminate. }
-    rewrite H1. cbn [orb].
-    destruct (num_hex_body (c :: r)) as [r0|] eqn:Hb; [|reflexivity].
-    apply num_hex_body_some in Hb. injection Hb as -> _. discriminate.
-  - apply pl_nf_none; [|rewrite Hhr; exact I]. rewrite span_fn, is_digit_fn, Hsp. left. reflexivity.
-Qed.
-
-Theorem number_short_junk_fault s :
-  num_clean s = true -> dev_short_junk (to_lower s) = true ->
-  classify_number s = Fault IndexRange /\ spec_value s = None.
-Proof.
-  intros Hcl H. destruct (short_junk_nf _ H) as (H1 & H2 & H3). split.
-  - rewrite (classify_char s Hcl). unfold classify_nf, pl_result. rewrite H1, H2, H3, H. reflexivity.
-  - rewrite spec_value_nf, H1, H2, H3. reflexivity.
-Qed.
-
-Lemma one_junk_nf t : dev_hex_one_junk t = true ->
-  dev_short_junk t = false /\ pi_nf t = None /\ pf_nf t = false /\ pl_nf t = None.
-Proof.
-  intros H. destruct (one_junk_inv _ H) as (x & -> & Hx). split; [reflexivity|].
-  assert (Hsp : num_span num_hexdigit [x] = ([], [x])) by (cbn; rewrite <- is_hex_fn, Hx; reflexivity).
-  split; [|split].
-  - unfold pi_nf. change (num_digits1 num_digit [48; 120; x]) with false. cbn iota.
-    unfold num_is_hex_int. cbn [num_hex_body N.eqb Pos.eqb andb]. unfold num_digits1. cbn [num_nonempty forallb andb].
-    rewrite <- is_hex_fn, Hx. reflexivity.
-  - unfold pf_nf. change (num_mant_exp num_digit 101 [48; 120; x]) with false. cbn [orb num_hex_body N.eqb Pos.eqb andb].
-    unfold num_mant_exp. rewrite Hsp. destruct (x =? 46); reflexivity.
-  - apply pl_nf_none.
-    + change (span is_digit [48; 120; x]) with ([48], [120; x]). right. reflexivity.
-    + change (hex_rest [48; 120; x]) with (Some [x]). rewrite span_fn, is_hex_fn, Hsp. left. reflexivity.
-Qed.
-
-Theorem number_hex_one_junk_int0 s :
-  num_clean s = true -> dev_hex_one_junk (to_lower s) = true ->
-  classify_number s = Ok (NumInt 0) /\ spec_value s = None.
-Proof.
-  intros Hcl H. destruct (one_junk_nf _ H) as (H0 & H1 & H2 & H3). split.
-  - rewrite (classify_char s Hcl). unfold classify_nf, pl_result. rewrite H1, H2, H3, H0, H. reflexivity.
-  - rewrite spec_value_nf, H1, H2, H3. reflexivity.
-Qed.
-
-Lemma hex_cut_len t : dev_hex_cut t = true -> (18 < length t)%nat.
-Proof.
-  unfold dev_hex_cut. intros H. apply andb_true_iff in H as [_ H]. apply andb_true_iff in H as [H _].
-  apply andb_true_iff in H as [_ H].
-  assert (Hle : (length (strip23 t) <= length t)%nat).
-  { destruct (strip23_prefix t) as [-> | ->]; rewrite firstn_length; lia. }
-  lia.
-Qed.
-
-Theorem number_hex_cut_int s :
-  num_clean s = true -> dev_hex_cut (to_lower s) = true -> spec_value s = None ->
-  classify_number s = Ok (NumInt (hex_cut_value (to_lower s))).
-Proof.
-  intros Hcl H Hsp. rewrite (classify_char s Hcl). rewrite spec_value_nf in Hsp.
-  set (t := to_lower s) in *. unfold classify_nf, pl_result.
-  pose proof (hex_cut_len t H) as Hl.
-  destruct (pi_nf t); [discriminate|]. destruct (pf_nf t); [discriminate|].
-  destruct (pl_nf t); [discriminate|].
-  rewrite short_junk_len by lia. rewrite one_junk_len by lia. rewrite H. reflexivity.
-Qed.
-
-(* ---------- no Go panic ---------- *)
-Theorem number_no_fault s :
-  num_clean s = true -> dev_short_junk (to_lower s) = false -> exists c, classify_number s = Ok c.
-Proof.
-  intros Hcl H. rewrite (classify_char s Hcl). unfold classify_nf, pl_result. rewrite H.
-  destruct (pi_nf (to_lower s)); [eauto|]. destruct (pf_nf (to_lower s)); [eauto|].
-  destruct (pl_nf (to_lower s)); [eauto|].
-  destruct (dev_hex_one_junk (to_lower s)); [eauto|]. destruct (dev_hex_cut (to_lower s)); eauto.
-Qed.
-
+(* ---------- lexer tokens ---------- *)
 (* the texts lexer.scanNumber can cut out: they start with a digit or with '.' digit and consist of
-   digits, a-f A-F, u U l L, '.', p P, x X, '+', '-' *)
+   digits, a-f A-F, u U l L, '.', p P, x X, '+', '-'  (proved of Model/Lexer.scan_number in
+   Proofs/NumberLexerToken.v) *)
 Definition num_lexer_char (c : N) : bool :=
   is_digit c || ((97 <=? c) && (c <=? 102)) || ((65 <=? c) && (c <=? 70))
   || (c =? 117) || (c =? 85) || (c =? 108) || (c =? 76) || (c =? 46)
@@ -1079,57 +690,33 @@ Definition num_token_start (s : list N) : bool :=
   end.
 Definition num_lexer_token (s : list N) : bool := forallb num_lexer_char s && num_token_start s.
 
-Lemma lexer_token_clean s : num_lexer_token s = true ->
-  num_clean s = true /\ dev_short_junk (to_lower s) = false.
+Lemma lexer_token_clean s : num_lexer_token s = true -> num_clean s = true.
 Proof.
-  unfold num_lexer_token. intros H. apply andb_true_iff in H as [Hall Hst]. split.
-  - unfold num_clean. apply andb_true_iff. split.
-    + apply forallb_forall. intros x Hx. pose proof (forallb_In _ _ _ Hall Hx) as Hc.
-      unfold num_lexer_char, is_digit in Hc. unfold is_space. lia.
-    + destruct s as [|c r]; [reflexivity|]. cbn [num_token_start] in Hst. unfold is_sign. unfold is_digit in Hst. lia.
-  - destruct s as [|c r]; [discriminate|]. cbn [num_token_start] in Hst. cbn [to_lower map].
-    assert (Hlow : forall x, is_digit x = true -> lower_byte x = x).
-    { intros x Hx. unfold lower_byte. unfold is_digit in Hx. destruct ((65 <=? x) && (x <=? 90)) eqn:E; [lia|reflexivity]. }
-    destruct (is_digit c) eqn:Hc.
-    + rewrite (Hlow c Hc). apply short_junk_digit. exact Hc.
-    + cbn [orb] in Hst. apply andb_true_iff in Hst as [Hdot Hd]. apply N.eqb_eq in Hdot. subst c.
-      destruct r as [|d r']; [discriminate|]. cbn [map]. rewrite (Hlow d Hd). change (lower_byte 46) with 46.
-      destruct r' as [|e r'']; cbn [map dev_short_junk]; [|reflexivity].
-      rewrite Hd. reflexivity.
+  unfold num_lexer_token. intros H. apply andb_true_iff in H as [Hall Hst].
+  unfold num_clean. apply andb_true_iff. split.
+  - apply forallb_forall. intros x Hx. pose proof (forallb_In _ _ _ Hall Hx) as Hc.
+    unfold num_lexer_char, is_digit in Hc. unfold is_space. lia.
+  - destruct s as [|c r]; [reflexivity|]. cbn [num_token_start] in Hst. unfold is_sign. unfold is_digit in Hst. lia.
 Qed.
+
+Corollary number_token_exact s :
+  num_lexer_token s = true -> classify_number s = Ok (class_of (spec_value s)).
+Proof. intros H. exact (number_classify_exact s (lexer_token_clean s H)). Qed.
 
 Corollary number_no_fault_token s : num_lexer_token s = true -> exists c, classify_number s = Ok c.
-Proof. intros H. destruct (lexer_token_clean s H) as [H1 H2]. exact (number_no_fault s H1 H2). Qed.
+Proof. intros H. exact (number_no_fault s (lexer_token_clean s H)). Qed.
 
-(* for lexer tokens: exactness outside the two reachable classes *)
-Corollary number_token_exact s :
-  num_lexer_token s = true -> num_deviates s = false -> classify_number s = Ok (class_of (spec_value s)).
-Proof. intros H. destruct (lexer_token_clean s H) as [H1 _]. exact (number_classify_exact s H1). Qed.
-
-(* acceptance, without any guard beyond `clean`: the numerals plus the two accepting deviation classes *)
-Theorem number_accepted_exact s :
-  num_clean s = true ->
-  (number_accepted s = true <->
-   Numeral s \/ dev_hex_one_junk (to_lower s) = true \/ dev_hex_cut (to_lower s) = true).
+(* for a number token: the "not a number" error is raised iff the text is no numeral *)
+Theorem number_ok_token s : num_lexer_token s = true -> (classify_number s <> Ok NumBad <-> Numeral s).
 Proof.
-  intros Hcl. split.
-  - intros Hacc. destruct (num_deviates s) eqn:Hdev.
-    + unfold num_deviates in Hdev. destruct (spec_value s) eqn:Hsp; [discriminate|].
-      apply orb_true_iff in Hdev as [Hdev|Hdev]; [|auto].
-      apply orb_true_iff in Hdev as [Hdev|Hdev]; [|auto].
-      destruct (number_short_junk_fault s Hcl Hdev) as [Hf _]. unfold number_accepted in Hacc.
-      rewrite Hf in Hacc. discriminate.
-    + left. apply (number_ok_iff s Hcl Hdev). exact Hacc.
-  - intros [[v Hv]|[H|H]].
-    + unfold number_accepted. rewrite (number_numeral_complete s v Hcl Hv). destruct v; reflexivity.
-    + unfold number_accepted. destruct (number_hex_one_junk_int0 s Hcl H) as [-> _]. reflexivity.
-    + destruct (spec_value s) as [v|] eqn:Hsp.
-      * apply spec_value_iff in Hsp. unfold number_accepted.
-        rewrite (number_numeral_complete s v Hcl Hsp). destruct v; reflexivity.
-      * unfold number_accepted. rewrite (number_hex_cut_int s Hcl H Hsp). reflexivity.
+  intros H. pose proof (number_bad_iff s (lexer_token_clean s H)) as Hb. split.
+  - intros Hne. destruct (spec_value s) eqn:E.
+    + exists n. apply spec_value_iff. exact E.
+    + exfalso. apply Hne. apply Hb. intros Hn. apply spec_numeral_iff in Hn. congruence.
+  - intros Hn Hbad. apply Hb in Hbad. exact (Hbad Hn).
 Qed.
 
-(* ---------- witnesses ---------- *)
+(* ---------- the witnesses of the three deviation classes of the code before fix 8dd49c7 ---------- *)
 Definition w_x : list N := [120].                                         (* "x" *)
 Definition w_plus_ll : list N := [43; 108; 108].                          (* "+ll" *)
 Definition w_0x_dot : list N := [48; 120; 46].                            (* "0x." *)
@@ -1138,39 +725,29 @@ Definition w_dot_0x_cut : list N :=                                       (* ".0
 Definition w_0x_dot_cut : list N :=                                       (* "0x.0000000000000001ll" *)
   [48; 120; 46] ++ repeat 48 15 ++ [49; 108; 108].
 
-Lemma not_numeral_of_spec s : spec_value s = None -> ~ Numeral s.
-Proof. intros H Hn. apply spec_numeral_iff in Hn. congruence. Qed.
+(* formerly: index out of range panic in parseLuajitNum (str[len(str)-3]) *)
+Example number_short_junk_repaired :
+  dev_short_junk w_x = true /\ classify_number w_x = Ok NumBad /\ classify_number w_plus_ll = Ok NumBad.
+Proof. repeat split; vm_compute; reflexivity. Qed.
 
-(* the unguarded "no Go panic for any non-empty text" is false: str[len(str)-3] in parseLuajitNum *)
-Theorem number_no_fault_refuted :
-  (w_x <> [] /\ num_clean w_x = true /\ classify_number w_x = Fault IndexRange) /\
-  (w_plus_ll <> [] /\ classify_number w_plus_ll = Fault IndexRange).
-Proof. repeat split; try discriminate; vm_compute; reflexivity. Qed.
+(* formerly accepted as IntegerExp 0 *)
+Example number_hex_one_junk_repaired :
+  num_lexer_token w_0x_dot = true /\ dev_hex_one_junk w_0x_dot = true /\ classify_number w_0x_dot = Ok NumBad.
+Proof. repeat split; vm_compute; reflexivity. Qed.
 
-(* "0x." is a lexer token, is not a numeral, and is accepted as the integer 0 *)
-Theorem number_hex_one_junk_refuted :
-  num_lexer_token w_0x_dot = true /\ classify_number w_0x_dot = Ok (NumInt 0) /\ ~ Numeral w_0x_dot.
-Proof.
-  split; [vm_compute; reflexivity|]. split; [vm_compute; reflexivity|].
-  apply not_numeral_of_spec. vm_compute. reflexivity.
-Qed.
+(* formerly accepted as IntegerExp 1 *)
+Example number_hex_cut_repaired :
+  (num_lexer_token w_dot_0x_cut = true /\ dev_hex_cut w_dot_0x_cut = true /\ classify_number w_dot_0x_cut = Ok NumBad) /\
+  (num_lexer_token w_0x_dot_cut = true /\ dev_hex_cut w_0x_dot_cut = true /\ classify_number w_0x_dot_cut = Ok NumBad).
+Proof. repeat split; vm_compute; reflexivity. Qed.
 
-(* ".0x0000000000000001ll" and "0x.0000000000000001ll" are lexer tokens, not numerals, accepted as 1 *)
-Theorem number_hex_cut_refuted :
-  (num_lexer_token w_dot_0x_cut = true /\ classify_number w_dot_0x_cut = Ok (NumInt 1) /\ ~ Numeral w_dot_0x_cut) /\
-  (num_lexer_token w_0x_dot_cut = true /\ classify_number w_0x_dot_cut = Ok (NumInt 1) /\ ~ Numeral w_0x_dot_cut).
-Proof.
-  split; (split; [vm_compute; reflexivity|]; split; [vm_compute; reflexivity|];
-          apply not_numeral_of_spec; vm_compute; reflexivity).
-Qed.
-
-(* non-vacuity of the guards: "0x1.8p-3", "18446744073709551615ULL", "3.", ".5e+10", "0xA", "9223372036854775808" *)
+(* non-vacuity: "0x1.8p-3", "18446744073709551615ULL", "3.", ".5e+10", "0xA", "9223372036854775808" *)
 Definition w_ok : list (list N) :=
   [ [48; 120; 49; 46; 56; 112; 45; 51];
     [49; 56; 52; 52; 54; 55; 52; 52; 48; 55; 51; 55; 48; 57; 53; 53; 49; 54; 49; 53; 85; 76; 76];
     [51; 46]; [46; 53; 101; 43; 49; 48]; [48; 120; 65];
     [57; 50; 50; 51; 51; 55; 50; 48; 51; 54; 56; 53; 52; 55; 55; 53; 56; 48; 56] ].
 Example number_guard_inhabited :
-  forallb (fun s => num_lexer_token s && num_clean s && negb (num_deviates s)) w_ok = true /\
+  forallb (fun s => num_lexer_token s && num_clean s) w_ok = true /\
   map classify_number w_ok = [Ok NumFloat; Ok (NumInt (-1)); Ok NumFloat; Ok NumFloat; Ok (NumInt 10); Ok NumFloat].
 Proof. split; vm_compute; reflexivity. Qed.
